@@ -469,6 +469,31 @@ class _StructRaise(Exception):
     pass
 
 
+_STRUCT_CACHE: Dict[str, Any] = {}
+
+
+def _structure_of(spec, nsteps: int):
+    """analyse_sql_structure of the first nsteps steps, with node ids mapped to step indices (cached:
+    it depends on the pipeline only, not on data or switches)."""
+    import json
+
+    key = json.dumps([spec["table"], spec["steps"][:nsteps]], sort_keys=True, default=repr)
+    if key not in _STRUCT_CACHE:
+        if len(_STRUCT_CACHE) > 4096:
+            _STRUCT_CACHE.clear()
+        trace: List[Any] = []
+        try:
+            ops = C.build(spec, upto=nsteps, trace=trace)
+            st = analyse_sql_structure(ops)
+            node_step = {id(n): i for i, n in enumerate(trace)}
+            st.pruned_steps = sorted(node_step[x] for x in st.pruned if x in node_step)
+            st.select_ignored_steps = sorted(node_step[x] for x in st.select_ignored if x in node_step)
+        except Exception:
+            st = None
+        _STRUCT_CACHE[key] = st
+    return _STRUCT_CACHE[key]
+
+
 def analyse_sql_structure(root) -> SqlStructure:
     from data_algebra.OrderedSet import OrderedSet
 
@@ -611,19 +636,15 @@ class Model:
         structural = {"project-pruned", "rawq-select", "rawq-drop", "extend-merge-keyerror", "empty-using"}
         if not (structural & self.D):
             return eff
-        trace: List[Any] = []
-        try:
-            ops = C.build(self.spec, upto=nsteps, trace=trace)
-        except Exception:
+        st = _structure_of(self.spec, nsteps)
+        if st is None:
             return eff
-        st = analyse_sql_structure(ops)
         if st.raise_kind is not None and st.raise_flag in self.D:
             raise ModelRaise(st.raise_kind)
-        node_step = {id(n): i for i, n in enumerate(trace)}
         if "project-pruned" in self.D:
-            eff["pruned"] = set(node_step[x] for x in st.pruned if x in node_step)
+            eff["pruned"] = set(st.pruned_steps)
         if "rawq-select" in self.D:
-            eff["select_ignored"] = set(node_step[x] for x in st.select_ignored if x in node_step)
+            eff["select_ignored"] = set(st.select_ignored_steps)
         return eff
 
     # -- one step -------------------------------------------------------------------------------
